@@ -52,6 +52,14 @@ def run(ctx: Ctx, rep: Report) -> None:
     # single-qudit retargeting (ZXZXZ) spells the same rotation two ways
     from ..rules.branchsib import rule_altspell
     rule_altspell(ctx, rep, 'bqskit/passes/', 3)
+    # multiplexor decomposition re-orders the location: target last, select
+    # qudits in their original order
+    from ..rules.stablemove import rule_stablemove
+    rule_stablemove(ctx, rep, 'bqskit/passes/', 1)
+    # a structural pass that re-wraps a block keeps the operation's params
+    from ..rules.paramflow import rule_paramflow
+    rule_paramflow(
+        ctx, rep, 'bqskit/passes/util/extend.py:ExtendBlockSizePass.run', {})
 
 
 # ---------------------------------------------------------------------------
